@@ -14,6 +14,8 @@
 //!   BA <bitpos> <len>    every pattern of <len> bits whose first bit is set, laid at <bitpos>
 //!                        (patterns reaching beyond the frame are skipped)
 //!                                         -> n=<k> REJECT=<r> SAME=<s> DIFFERENT=<d> [first=<pat>]
+//!   T <hex>              octets that follow the frame in the same arrival (for this and the following
+//!                        ops of the case); decodes frame ++ these      -> SAME <octets consumed> | REJECT | DIFFERENT <n>
 //! A panic of the decoder counts as REJECT here (the PDU was not accepted; panics are property
 //! C06) and is noted in oracle.txt as a NOTE line.
 use crate::rng::Rng;
@@ -94,6 +96,7 @@ pub fn run(ops: &str, out: &mut impl Write, orc: &mut impl Write) {
         writeln!(out, "CASE {id}").unwrap();
         let mut frame: Vec<u8> = Vec::new();
         let mut original: Option<PDU> = None;
+        let mut trailing: Vec<u8> = Vec::new();
         for (i, l) in lines.iter().enumerate() {
             let t: Vec<&str> = l.split_whitespace().collect();
             match t[0] {
@@ -141,12 +144,32 @@ pub fn run(ops: &str, out: &mut impl Write, orc: &mut impl Write) {
                         writeln!(orc, "FAIL C15 case={id} op={i} the unaltered encoding {} is not accepted as the PDU it encodes ({})", t[1], o.s()).unwrap();
                     }
                 }
+                "T" => {
+                    trailing = unhex(t[1]);
+                    let mut all = frame.clone();
+                    all.extend(&trailing);
+                    let mut rd = &all[..];
+                    let res = catch_unwind(AssertUnwindSafe(|| PDU::decode(&mut rd)));
+                    let consumed = all.len() - rd.len();
+                    match res {
+                        Ok(Ok(p)) if Some(&p) == original.as_ref() => writeln!(out, "SAME {consumed}").unwrap(),
+                        Ok(Ok(_)) => {
+                            writeln!(out, "DIFFERENT {consumed}").unwrap();
+                            writeln!(orc, "FAIL C15 case={id} op={i} the unaltered encoding followed by {} decodes to a different PDU", t[1]).unwrap();
+                        }
+                        _ => {
+                            writeln!(out, "REJECT").unwrap();
+                            writeln!(orc, "FAIL C15 case={id} op={i} the unaltered encoding followed by {} is rejected", t[1]).unwrap();
+                        }
+                    }
+                }
                 "E" => {
                     let pos: usize = t[1].parse().unwrap();
                     let pat = u64::from_str_radix(t[2], 16).unwrap();
                     match apply(&frame, pos, pat) {
                         None => writeln!(out, "SKIP").unwrap(),
-                        Some(bad) => {
+                        Some(mut bad) => {
+                            bad.extend(&trailing);
                             let (o, panicked) = decode_obs(&bad, &original);
                             writeln!(out, "{}", o.s()).unwrap();
                             if panicked {
@@ -165,7 +188,8 @@ pub fn run(ops: &str, out: &mut impl Write, orc: &mut impl Write) {
                     let mut first: Option<u64> = None;
                     let mut panics = 0u64;
                     for pat in (1u64 << (len - 1))..(1u64 << len) {
-                        if let Some(bad) = apply(&frame, pos, pat) {
+                        if let Some(mut bad) = apply(&frame, pos, pat) {
+                            bad.extend(&trailing);
                             n += 1;
                             let (o, panicked) = decode_obs(&bad, &original);
                             if panicked {
@@ -324,7 +348,7 @@ pub const KIND_NAMES: [&str; KINDS] = [
 ];
 
 /// one valid CRC-bearing PDU of the given kind
-pub fn make_pdu(rng: &mut Rng, kind: usize, large: bool, width: u8, long: usize) -> PDU {
+pub fn make_pdu(rng: &mut Rng, kind: usize, large: bool, width: u8, long: usize, crc: bool) -> PDU {
     let flag = if large { FileSizeFlag::Large } else { FileSizeFlag::Small };
     let mut seg_meta = SegmentedData::NotPresent;
     let payload = match kind {
@@ -443,7 +467,7 @@ pub fn make_pdu(rng: &mut Rng, kind: usize, large: bool, width: u8, long: usize)
         pdu_type,
         direction: if rng.chance(1, 2) { Direction::ToReceiver } else { Direction::ToSender },
         transmission_mode: if rng.chance(1, 2) { TransmissionMode::Acknowledged } else { TransmissionMode::Unacknowledged },
-        crc_flag: CRCFlag::Present,
+        crc_flag: if crc { CRCFlag::Present } else { CRCFlag::NotPresent },
         large_file_flag: flag,
         pdu_data_field_length: payload.encoded_len(flag),
         segmentation_control: if rng.chance(1, 2) { SegmentationControl::NotPreserved } else { SegmentationControl::Preserved },
@@ -569,6 +593,35 @@ fn gen_errors(w: &mut impl Write, stats: &mut Stats, rng: &mut Rng, tier: &str, 
     }
 }
 
+/// the frame followed by other octets in the same arrival: the receiver must cut the frame by its header
+fn gen_trailing(w: &mut impl Write, stats: &mut Stats, rng: &mut Rng, tier: &str, cid: &str, frame: &[u8]) {
+    let nbits = frame.len() * 8;
+    writeln!(w, "CASE {cid}_trail len={}", frame.len()).unwrap();
+    writeln!(w, "F {}", hex(frame)).unwrap();
+    let k = 1 + rng.below(8) as usize;
+    let t = match rng.below(3) {
+        0 => vec![0u8; k],
+        1 => frame[..k.min(frame.len())].to_vec(),
+        _ => rng.bytes(k),
+    };
+    writeln!(w, "T {}", hex(&t)).unwrap();
+    stats.inc("trailing_cases");
+    let m = if tier == "thorough" { 600 } else { 60 };
+    for _ in 0..m {
+        let pos = 32 + rng.below((nbits - 32) as u64) as usize;
+        let pat = match rng.below(3) {
+            0 => 1,
+            1 => (1u64 << (1 + rng.below(39))) | 1,
+            _ => {
+                let len = 1 + rng.below(16) as u32;
+                (1u64 << (len - 1)) | rng.below(1u64 << (len - 1))
+            }
+        };
+        writeln!(w, "E {pos} {pat:x}").unwrap();
+        stats.inc("err_with_trailing");
+    }
+}
+
 pub fn gen(seed: u64, tier: &str, w: &mut impl Write, stats: &mut Stats) {
     let mut rng = Rng::new(seed ^ 0xC15);
     let thorough = tier == "thorough";
@@ -646,7 +699,7 @@ pub fn gen(seed: u64, tier: &str, w: &mut impl Write, stats: &mut Stats) {
                 if kind == 15 && rep > 0 {
                     continue; // the long file-data PDUs once per flag
                 }
-                let p = make_pdu(&mut r, kind, large, width, long);
+                let p = make_pdu(&mut r, kind, large, width, long, true);
                 let frame = p.clone().encode();
                 // only encodings the real decoder maps back to the PDU are in the corpus (C05 is about the others)
                 let back = catch_unwind(AssertUnwindSafe(|| PDU::decode(&mut &frame[..])));
@@ -661,6 +714,19 @@ pub fn gen(seed: u64, tier: &str, w: &mut impl Write, stats: &mut Stats) {
                 stats.inc(if large { "flag_large" } else { "flag_small" });
                 let cid = format!("p{idx}_{}_{}w{width}_s{sub:x}", KIND_NAMES[kind], if large { "L" } else { "S" });
                 gen_errors(w, stats, &mut r, tier, &cid, &frame);
+                gen_trailing(w, stats, &mut r, tier, &cid, &frame);
+                // the same PDU without the CRC: only the delimitation of the frame is compared
+                let q = {
+                    let mut q = p.clone();
+                    q.header.crc_flag = CRCFlag::NotPresent;
+                    q
+                };
+                let f2 = q.encode();
+                writeln!(w, "CASE {cid}_nocrc len={}", f2.len()).unwrap();
+                writeln!(w, "F {}", hex(&f2)).unwrap();
+                writeln!(w, "T {}", hex(&r.bytes(3))).unwrap();
+                writeln!(w, "T -").unwrap();
+                stats.inc("nocrc_cases");
                 idx += 1;
             }
         }
@@ -668,7 +734,7 @@ pub fn gen(seed: u64, tier: &str, w: &mut impl Write, stats: &mut Stats) {
     // long PDUs with many options / segment requests
     for (kind, long, large) in [(8usize, 40usize, false), (9, 30, true)] {
         let (sub, mut r) = rng.fork();
-        let p = make_pdu(&mut r, kind, large, 2, long);
+        let p = make_pdu(&mut r, kind, large, 2, long, true);
         let frame = p.clone().encode();
         let back = catch_unwind(AssertUnwindSafe(|| PDU::decode(&mut &frame[..])));
         if !matches!(&back, Ok(Ok(q)) if *q == p) {
